@@ -11,7 +11,7 @@ import (
 var c06Cfg = GenCfg{
 	MinBlocks: 4, MaxBlocks: 32, MinOps: 6, MaxOps: 50,
 	W: map[string]int{"write": 46, "read": 3, "snap": 18, "remove": 6, "revert": 3, "reopen": 6,
-		"reload": 2, "punch": 2, "unmap": 2, "lunmap": 2, "setcp": 2, "markrm": 2, "resize": 1, "delpunch": 2},
+		"reload": 2, "punch": 2, "unmap": 2, "lunmap": 2, "setcp": 2, "markrm": 2, "resize": 1, "delpunch": 2, "lunmapseq": 4},
 	PunchStart: 80, MaxChainMin: 6, MaxChainMax: 10,
 }
 
